@@ -581,23 +581,25 @@ class ChirpZTransformExecutor:
 
 
 def _prepare_czt_basis(N, M, K, shift, alpha, dtype, norm=False):
+    # a shift displaces the input and the output coordinates alike, as in the
+    # matrix DFT: the kernel is exp(-2i pi alpha (n-shift)(m-shift)), so that a
+    # shifted transform followed by its inverse returns the input.  The chirp
+    # h depends only on (m-shift)-(n-shift) = m-n and is not shifted
     m = fftrange(M, dtype=dtype)
+    n = fftrange(N, dtype=dtype)
     if shift != 0:
-        m += shift
+        m -= shift
+        n -= shift
 
     prefix = -1j * np.pi
     a = np.exp(prefix * m*m * alpha)
-
-    n = fftrange(N, dtype=dtype)
     b = np.exp(prefix * n*n * alpha)
 
     # maybe can replace with empty for minor performance gains?
     h = np.zeros(K, dtype=dtype)
 
     # need to populate h piecewise, see Jurling2014 48c, 48d
-    start = M // 2 - N // 2 + shift  # difference of the two fftrange origins
-    # arange(M) - start, not arange(-start, -start+M): for fractional shifts the
-    # latter can round to M+1 elements
+    start = M // 2 - N // 2  # difference of the two fftrange origins
     j = np.arange(M, dtype=dtype) - start
     # j is an index variable
     h[:M] = np.pi * (j * j)
